@@ -30,6 +30,8 @@ type Script struct {
 	CtxMs int `json:"ctxms"`
 	// number of pods/containers in the Synchronize request (varies the exchange length)
 	Pods int `json:"pods"`
+	// the plugin's Configure callback of this attempt takes this long (milliseconds)
+	CfgDelayMs int `json:"cfgdelay"`
 }
 
 // frameParser follows one direction of the trunk byte stream and counts complete mux
@@ -40,6 +42,8 @@ type frameParser struct {
 	remain int
 	id     uint32
 	frames [3]int // [0] other ids, [1] PluginServiceConn, [2] RuntimeServiceConn
+	total  int   // bytes fed
+	ends   []int // stream offset at which each frame was complete
 }
 
 func (p *frameParser) feed(b []byte) {
@@ -47,6 +51,7 @@ func (p *frameParser) feed(b []byte) {
 		if p.nh < 8 {
 			n := copy(p.hdr[p.nh:], b)
 			p.nh += n
+			p.total += n
 			b = b[n:]
 			if p.nh < 8 {
 				return
@@ -63,6 +68,7 @@ func (p *frameParser) feed(b []byte) {
 			n = p.remain
 		}
 		p.remain -= n
+		p.total += n
 		b = b[n:]
 		if p.remain == 0 {
 			p.done()
@@ -76,6 +82,7 @@ func (p *frameParser) done() {
 		i = 0
 	}
 	p.frames[i]++
+	p.ends = append(p.ends, p.total)
 	p.nh = 0
 }
 
